@@ -14,7 +14,6 @@ A-CALLABLE (core): a stored generator is a deterministic function of (generator 
 """
 import contracts.c01_signatures      # noqa: F401  (bioDraws.get_signature, RandomVariable.get_signature, Integrate/Derive)
 import contracts.c03_idmanager       # noqa: F401  (expressions_names_indices + field types of IdManager / ElementsTuple)
-import contracts.c09_panel           # noqa: F401  (Database.get_sample_size, is_panel)
 from pyvc.contract import REGISTRY, contract, field_type
 from pyvc.libext import c10c_numpy
 
@@ -28,15 +27,30 @@ field_type('Database', 'number_of_draws', 'int')
 
 N = 'self.get_sample_size()'
 
+# the sample size as a FUNCTION of the database object and the fields it reads (same statement as contracts/c09_panel.py,
+# which proves it under C09; here additionally `pure`, so that every mention in a specification is one and the same term)
+field_type('Database', 'panelColumn', 'str | None')
+field_type('Database', 'individualMap', 'DataFrame')
+field_type('Database', 'data', 'DataFrame')
+contract(D + 'get_sample_size', 'C10', self_class='Database', label='Database.get_sample_size', pure=True,
+         reads=['panelColumn', 'individualMap', 'data'], returns='int', modifies=[],
+         ensures={'individuals_if_panel': "result == ite(self.panelColumn is not None, app('df_nrows', self.individualMap), app('df_nrows', self.data))"})
 
-def gen_of(t):
+
+def gen_of(t, db='self'):
     """the generator record registered for type t: native table first, then the user's"""
     nat = f'c10c_native_table().get({t})'
-    return f'ite({nat} is not None, {nat}, self.userRandomNumberGenerators.get({t}))'
+    return f'ite({nat} is not None, {nat}, {db}.userRandomNumberGenerators.get({t}))'
 
 
-def series_of(t, n=N, r='number_of_draws'):
-    return f"typed({gen_of(t)}, 'RandomNumberGeneratorTuple').generator({n}, {r})"
+def series_of(t, db='self', r='number_of_draws'):
+    return f"typed({gen_of(t, db)}, 'RandomNumberGeneratorTuple').generator({db}.get_sample_size(), {r})"
+
+
+def own_object(db, *others):
+    """Database.typesOfDraws is an object of its own: not the user's generator dictionary, not the native table, not `others`"""
+    t = f"c10c_raw({db}, 'typesOfDraws')"
+    return ' and '.join(f'{t} is not {o}' for o in (f"c10c_raw({db}, 'userRandomNumberGenerators')", 'c10c_native_ref()') + others)
 
 
 TYPE_Q = 'draw_types[names[q]]'
@@ -83,7 +97,8 @@ detail = f'generate_draws on coded generators: {bad[:3]}'
 contract(D + 'generate_draws', 'C10', self_class='Database', label='Database.generate_draws',
          types={'draw_types': 'dict[str, str]', 'names': 'list[str]', 'number_of_draws': 'int'},
          returns='Any',
-         requires={'names_typed': 'forall(lambda q: names[q] in draw_types, 0, len(names))'},
+         requires={'names_typed': 'forall(lambda q: names[q] in draw_types, 0, len(names))',
+                   'types_record_is_its_own_object': own_object('self', 'draw_types', 'names')},
          raises={'BiogemeError': f'exists(lambda q: {BAD_Q}, 0, len(names))'},
          modifies=['self.number_of_draws', 'self.theDraws', 'dict(self.typesOfDraws)'],
          invariants={1: {'clauses': {
@@ -103,3 +118,117 @@ contract(D + 'generate_draws', 'C10', self_class='Database', label='Database.gen
          },
          replay=REPLAY_GENERATE,
          note='the third axis of the draws table follows `names`; every name gets the series of the generator of its own type')
+
+
+# ------------------------------------------------------------------------------------------------------------------
+# IdManager.draw_types: name -> declared type
+Q = 'biogeme.expressions.idmanager.'
+field_type('bioDraws', 'drawType', 'str')
+field_type('IdManager', 'requires_draws', 'bool')
+field_type('IdManager', 'number_of_draws', 'int')
+DRAWS_OK = 'self.draws is not None and self.draws.expressions is not None and c10c_is_dict(self.draws.expressions)'
+
+contract(Q + 'IdManager.draw_types', 'C10', returns='dict[str, str]',
+         requires={'draws_numbered': DRAWS_OK},
+         modifies=[],
+         ensures={'domain': "forall(lambda x: (x in result) == (x in self.draws.expressions), ty='str')",
+                  'declared_type_of_name': "forall(lambda x: implies(x in self.draws.expressions, "
+                                           "same(result[x], typed(self.draws.expressions[x], 'bioDraws').drawType)), ty='str')",
+                  'new_object': 'c10c_new_object(result)'},
+         replay=r"""
+import warnings; warnings.simplefilter('ignore')
+import pandas as pd
+from biogeme.database import Database
+from biogeme.expressions import bioDraws, MonteCarlo
+from biogeme.expressions.idmanager import IdManager
+db = Database('d', pd.DataFrame({'x': [1.0, 2.0]}))
+f = MonteCarlo(bioDraws('zz', 'NORMAL') * bioDraws('aa', 'UNIFORM') + bioDraws('mm', 'UNIFORMSYM'))
+im = IdManager([f], db, 2)
+got = im.draw_types()
+violated = got != {'zz': 'NORMAL', 'aa': 'UNIFORM', 'mm': 'UNIFORMSYM'} or im.draws.names != ['aa', 'mm', 'zz']
+detail = f'draw_types() = {got}, names = {im.draws.names}'
+""")
+
+# ------------------------------------------------------------------------------------------------------------------
+# BIOGEME._generate_draws: what is handed to the database
+field_type('BIOGEME', 'database', 'Database')
+field_type('BIOGEME', 'id_manager', 'IdManager')
+field_type('BIOGEME', 'monte_carlo', 'bool')
+IM = 'self.id_manager'
+DB = 'self.database'
+TYPE_OF_NAME_Q = f"typed({IM}.draws.expressions[{IM}.draws.names[q]], 'bioDraws').drawType"
+BAD_B = (f'({gen_of(TYPE_OF_NAME_Q, DB)} is None or '
+         f'not same({series_of(TYPE_OF_NAME_Q, DB)}.shape, ({DB}.get_sample_size(), number_of_draws)))')
+
+contract('biogeme.biogeme.BIOGEME._generate_draws', 'C10', types={'number_of_draws': 'int'},
+         requires={
+             'id_manager_prepared': f'{IM}.draws is not None and {IM}.draws.expressions is not None and c10c_is_dict({IM}.draws.expressions)',
+             # invariant of ElementsTuple (post of expressions_names_indices, proved): every listed name is a key
+             'draw_names_are_keys': f'forall(lambda q: {IM}.draws.names[q] in {IM}.draws.expressions, 0, len({IM}.draws.names))',
+             # invariant of Database: the record of types is an object of its own
+             'types_record_is_its_own_object': own_object(DB, f'{IM}.draws.names', f"c10c_raw({IM}.draws, 'expressions')")},
+         raises={'BiogemeError': f'{IM}.requires_draws and exists(lambda q: {BAD_B}, 0, len({IM}.draws.names))'},
+         modifies=['self.monte_carlo', f'{DB}.number_of_draws', f'{DB}.theDraws', f'dict({DB}.typesOfDraws)'],
+         ensures={
+             'flag': f'self.monte_carlo == {IM}.requires_draws',
+             'requested_number': f'implies({IM}.requires_draws, {DB}.number_of_draws == number_of_draws)',
+             'shape': f'implies({IM}.requires_draws and len({IM}.draws.names) >= 1, '
+                      f'same({DB}.theDraws.shape, ({DB}.get_sample_size(), number_of_draws, len({IM}.draws.names))))',
+             'column_k_is_series_of_kth_sorted_name':
+                 f'implies({IM}.requires_draws, forall(lambda q: forall(lambda i: forall(lambda j: '
+                 f'same({DB}.theDraws[i, j, q], {series_of(TYPE_OF_NAME_Q, DB)}[i, j]), 0, number_of_draws), 0, {DB}.get_sample_size()), '
+                 f'0, len({IM}.draws.names)))',
+             'untouched_without_draws': f'implies(not {IM}.requires_draws, same({DB}.theDraws, old({DB}.theDraws)))',
+         },
+         note='the names handed over are the id manager\'s (sorted) draw names, in id order; types are the declared ones')
+
+# ------------------------------------------------------------------------------------------------------------------
+# the id used in the signature of a draw / random variable is the position of its name in the id manager's list
+E = 'biogeme.expressions.elementary_expressions.'
+field_type('Elementary', 'name', 'str')
+for cls, table, idf in (('bioDraws', 'draws', 'drawId'), ('RandomVariable', 'random_variables', 'rvId')):
+    TB = f'id_manager.{table}'
+    contract(E + f'{cls}.set_id_manager', 'C10', types={'id_manager': 'IdManager | None'},
+             requires={
+                 'numbered': f'implies(id_manager is not None, id_manager.elementary_expressions is not None and '
+                             f'id_manager.elementary_expressions.indices is not None and self.name in id_manager.elementary_expressions.indices and '
+                             f'{TB} is not None and {TB}.indices is not None and self.name in {TB}.indices)',
+                 # post of expressions_names_indices (proved): indices[names[q]] == q
+                 'index_of_name': f'implies(id_manager is not None, forall(lambda q: {TB}.indices[{TB}.names[q]] == q, 0, len({TB}.names)))'},
+             modifies=['self.id_manager', 'self.elementaryIndex', f'self.{idf}'],
+             ensures={
+                 'reset': f'implies(id_manager is None, self.{idf} is None and self.elementaryIndex is None)',
+                 'manager_kept': 'same(self.id_manager, id_manager)',
+                 'own_table_index_by_name': f'implies(id_manager is not None, same(self.{idf}, {TB}.indices[self.name]))',
+                 'unique_index_by_name': 'implies(id_manager is not None, same(self.elementaryIndex, id_manager.elementary_expressions.indices[self.name]))',
+                 'id_is_position_in_names': f'implies(id_manager is not None, forall(lambda q: implies({TB}.names[q] == self.name, self.{idf} == q), '
+                                            f'0, len({TB}.names)))'},
+             replay=f"""
+import warnings; warnings.simplefilter('ignore')
+import pandas as pd
+from biogeme.database import Database
+from biogeme.expressions import bioDraws, MonteCarlo, RandomVariable, Integrate, exp
+from biogeme.expressions.idmanager import IdManager
+db = Database('d', pd.DataFrame({{'x': [1.0, 2.0]}}))
+f = MonteCarlo(bioDraws('zz', 'NORMAL') * bioDraws('aa', 'UNIFORM') + bioDraws('mm', 'UNIFORMSYM')) + \\
+    Integrate(Integrate(exp(-RandomVariable('w') * RandomVariable('w') - RandomVariable('c') * RandomVariable('c')), 'w'), 'c')
+im = IdManager([f], db, 2)
+f.set_id_manager(im)
+bad = []
+for e in f.get_elementary_expressions() if hasattr(f, 'get_elementary_expressions') else []:
+    pass
+names = im.{table}.names
+todo = [f]
+while todo:
+    e = todo.pop(); todo.extend(e.get_children())
+    if type(e).__name__ == '{cls}' and names.index(e.name) != e.{idf}:
+        bad.append((e.name, e.{idf}, names))
+violated = bool(bad) or names != sorted(names)
+detail = f'{cls} ids vs positions in {{names}}: {{bad}}'
+""")
+
+# proved elsewhere, re-discharged under C10 (same contracts, no redefinition)
+for key in (Q + 'expressions_names_indices', E + 'bioDraws.get_signature', E + 'RandomVariable.get_signature'):
+    con = REGISTRY.contracts[key]
+    if 'C10' not in con.props:
+        con.props.append('C10')
